@@ -47,7 +47,8 @@ struct Case
   std::vector<Step> steps;
   std::vector<Loop> preLoops;  // parallel_for calls made BEFORE the first initTaskingSystem (backends start lazily)
   int flush = 0;               // bit i: the i-th initialisation asks for flush-to-zero / denormals-are-zero as well
-  auto tie() { return std::tie(first, firstLoops, steps, preLoops, flush); }
+  int reinitDuring = 0;        // bit i: while the loops of step i run, ANOTHER thread keeps re-initialising with the same n
+  auto tie() { return std::tie(first, firstLoops, steps, preLoops, flush, reinitDuring); }
 };
 
 static void burn(int us)
@@ -107,6 +108,7 @@ static int runLoops(const std::vector<Loop> &loops, bool &exercised, int limit)
 }
 
 // everything the child does; returns "" or a failure message
+static bool exercisedReinit = false;
 static std::string childBody(const Case &c, bool &exercised)
 {
   std::ostringstream err;
@@ -159,10 +161,38 @@ static std::string childBody(const Case &c, bool &exercised)
       err << "after re-initialising with " << n << " numTaskingThreads() is " << rep << ", expected " << want;
       return err.str();
     }
+    // TBB and OpenMP only: the limit is a property of the process (TBB) / of each calling thread (OpenMP), so a second
+    // thread may re-initialise with the SAME count while loops are in flight; the internal back end replaces its
+    // scheduler on re-initialisation, which is not something to do under a running loop, and is left out
+    std::atomic<bool> stopReinit{false};
+    std::thread reinit;
+    long reinits = 0;
+#if defined(RKCOMMON_TASKING_TBB) || defined(RKCOMMON_TASKING_OMP)
+    if ((c.reinitDuring >> (&s - &c.steps[0])) & 1)
+      reinit = std::thread([&] {
+        while (!stopReinit.load() && reinits < 20000) {
+          initTaskingSystem(n);
+          ++reinits;
+          burn(30);
+        }
+      });
+#endif
     int w = runLoops(s.loops, exercised, want);
+    stopReinit = true;
+    if (reinit.joinable())
+      reinit.join();
     if (w > want) {
       err << "after initTaskingSystem(" << n << ") " << w << " threads ran parallel_for bodies at the same time";
+      if (reinits)
+        err << " (another thread re-initialised with the same count " << reinits << " times meanwhile)";
       return err.str();
+    }
+    if (reinits) {
+      exercisedReinit = true;
+      if (numTaskingThreads() != want) {
+        err << "after concurrent re-initialisations with " << n << " numTaskingThreads() is " << numTaskingThreads();
+        return err.str();
+      }
     }
   }
   return "";
@@ -178,6 +208,8 @@ static void run_case(const Case &c, pbt::Ctx &ctx)
     std::string msg = childBody(c, ex);
     if (ex)
       cc.label("limit-exercised");
+    if (exercisedReinit)
+      cc.label("re-initialised by another thread while loops ran");
     if (!msg.empty())
       throw pbt::Failure{msg};
   });
@@ -212,7 +244,8 @@ static rc::Gen<Case> genCase()
   auto step = gen::build<Step>(gen::set(&Step::n, n), gen::set(&Step::loops, loops));
   return gen::build<Case>(gen::set(&Case::first, gen::weightedOneOf<int>({{2, gen::element<int>(-7, -1, 0)}, {1, gen::just(1)}, {3, n}})), gen::set(&Case::firstLoops, loops),
       gen::set(&Case::steps, pbt::vec(step, 4)), gen::set(&Case::preLoops, gen::weightedOneOf<std::vector<Loop>>({{2, gen::just(std::vector<Loop>())}, {1, loops}})),
-      gen::set(&Case::flush, gen::weightedOneOf<int>({{2, gen::just(0)}, {1, pbt::range<int>(0, 31)}})));
+      gen::set(&Case::flush, gen::weightedOneOf<int>({{2, gen::just(0)}, {1, pbt::range<int>(0, 31)}})),
+      gen::set(&Case::reinitDuring, gen::weightedOneOf<int>({{2, gen::just(0)}, {1, pbt::range<int>(0, 15)}})));
 }
 
 static void register_properties()
